@@ -613,6 +613,7 @@ func (v *Verifier) runPartition(pkg *ssa.Package, fn *ssa.Function, c *Contract,
 	v.noMerge = c.Options["nomerge"] != ""
 	v.opaqueCalls = c.Options["opaque-calls"] != ""
 	v.allowPanic = c.Options["panics-allowed"] != ""
+	v.allowIndexPanic = c.Options["index-panics-allowed"] != ""
 	v.inlineNames = map[string]bool{}
 	for _, n := range strings.Fields(strings.ReplaceAll(c.Options["inline-callees"], ",", " ")) {
 		v.inlineNames[n] = true // "option inline-callees f g": the bodies of these callees are executed here instead of their contracts
@@ -644,7 +645,7 @@ func (v *Verifier) runPartition(pkg *ssa.Package, fn *ssa.Function, c *Contract,
 	v.sink = func(o *Obligation) {
 		o.Ctx = rctx
 		mine = append(mine, o)
-		script := F.Script(&Query{Name: o.Name, Hyps: o.Hyps, Goal: o.Goal, Abstract: o.Abstract, Preamble: o.Preamble}, true)
+		script := F.Script(&Query{Name: o.Name, Hyps: o.Hyps, Goal: o.Goal, Abstract: o.Abstract, Preamble: o.Preamble, Layered: len(v.abstract) > 0}, true)
 		if len(v.moduleVars) > 0 {
 			// module layer: an alternative script without the non-linear hypotheses and the definitional facts (a
 			// sufficient condition; only an "unsat" answer of it is used)
@@ -805,6 +806,22 @@ func (v *Verifier) runPartition(pkg *ssa.Package, fn *ssa.Function, c *Contract,
 	// ghost parameters (free ring / integer variables) and entry parametrisation of the inputs:
 	// "let p.X = px*p.Z*p.Z" substitutes the term into the entry state, so that no hypothesis remains
 	for _, nl := range c.Nullable {
+		// a pointer parameter that may be nil (an optional pool): its value is nil or the object built for it
+		isParam := false
+		for _, prm := range fn.Params {
+			if prm.Name() == nl {
+				if pv, ok := env[prm].(*PtrV); ok && pv.Obj != nil {
+					isNil := F.Var("isnil!"+sanitize(nl), SBool)
+					nv := &IteV{C: isNil, A: &PtrV{}, B: pv}
+					env[prm] = nv
+					fr.params[nl] = nv
+					isParam = true
+				}
+			}
+		}
+		if isParam {
+			continue
+		}
 		le, err := parseSpec(nl)
 		if err != nil {
 			unsup("nullable %q: %v", nl, err)
